@@ -20,6 +20,7 @@ import (
 	"errors"
 	"fmt"
 	"io"
+	"runtime"
 	"strconv"
 	"strings"
 	"testing"
@@ -192,7 +193,7 @@ func c07Kind(k string, pkLen int) (*Node, bool) {
 	panic("bad kind")
 }
 
-// c07CapReader behaves like bytes.Reader but refuses reads of more than 1 MiB: the generator uses
+// c07CapReader behaves like bytes.Reader but refuses reads of more than 40000 bytes: the generator uses
 // it to discard inputs whose (attacker-chosen) SCALE length prefix makes pkg/scale allocate up to
 // 4 GiB, which neither the harness output nor the Lean model can materialise.
 type c07CapReader struct {
@@ -203,7 +204,7 @@ type c07CapReader struct {
 type c07Large struct{}
 
 func (r *c07CapReader) Read(p []byte) (int, error) {
-	if len(p) > 1<<20 {
+	if len(p) > 40000 {
 		panic(c07Large{})
 	}
 	if r.i >= len(r.s) {
@@ -340,7 +341,7 @@ func c07ValTok(r *vhRng, small bool) string {
 		return fmt.Sprintf("Z%d.%d", r.Pick(31, 32, 33, 40, 62, 63, 64, 65, 100), r.Intn(256))
 	case 3:
 		if r.Chance(1, 8) {
-			return fmt.Sprintf("Z%d.%d", r.Pick(16382, 16383, 16384, 16385, 70000), r.Intn(256))
+			return fmt.Sprintf("Z%d.%d", r.Pick(16382, 16383, 16384, 16385, 19000), r.Intn(256))
 		}
 		return vhHex(make([]byte, 1+r.Intn(4)))
 	default:
@@ -483,7 +484,7 @@ func c07HeaderBytes(r *vhRng) []byte {
 	return b
 }
 
-func c07Gen(r *vhRng) string {
+func c07GenRaw(r *vhRng) string {
 	m := c07ScaleMode()
 	switch r.Intn(20) {
 	case 0:
@@ -548,6 +549,26 @@ func c07Gen(r *vhRng) string {
 			}
 		}
 		return "nd " + m + " " + vhHex(enc)
+	}
+}
+
+// c07Gen keeps case lines and their outputs below 400 kB.
+func c07Gen(r *vhRng) string {
+	for {
+		l := c07GenRaw(r)
+		if len(l) > 300000 {
+			continue
+		}
+		// a nested (inlined-child) SCALE length prefix can still ask pkg/scale for up to 4 GiB:
+		// drop cases whose run allocates more than 2 MiB in total
+		var m0, m1 runtime.MemStats
+		runtime.ReadMemStats(&m0)
+		out := vhCatch(func() string { return c07Run(l) })
+		runtime.ReadMemStats(&m1)
+		if len(out) > 400000 || m1.TotalAlloc-m0.TotalAlloc > 2<<20 {
+			continue
+		}
+		return l
 	}
 }
 
